@@ -130,6 +130,18 @@ def conditional_slice(vc):
     vc.ensures_forall("evaluated_at_point_with_one_coordinate_replaced", n,
                       lambda j: snap[j] == S.ite(S.cmp("==", j, i), xv, before[j]))
     vc.unchanged("conditioning_point", theta, before)
+    # the way get_conditionals uses it: the same object, switched to another variable, evaluated again -- no state of
+    # the earlier evaluation may leak into the later one
+    i2 = vc.index("second_variable_index", n)
+    vc.setattr(C, "variable_index", i2)
+    x2 = vc.real("x2")
+    vc.call(C, "__call__", x2)
+    calls = [e for e in vc.c.trace if e[0] == "posterior"]
+    vc.ensures("second_evaluation", len(calls) == 2)
+    if len(calls) == 2:
+        snap2 = calls[1][2]
+        vc.ensures_forall("second_evaluation_through_the_same_conditioning_point", n,
+                          lambda j: snap2[j] == S.ite(S.cmp("==", j, i2), x2, before[j]))
 
 
 class Bisect(LoopSpec):
